@@ -29,20 +29,22 @@ def scenarios(tier):
                 pick.append({x: ['E' if x == k else 'S'] for x in keys})
             pick.append({k: ['E'] for k in keys})
             assigns = pick
-        for res in assigns:
+        for ai, res in enumerate(assigns):
             tag = ''.join(res[k][0] for k in sorted(res))
             scn = wfscn.ProgScenario('%s/%s' % (name, tag), prog, results=res)
             if n <= EXHAUST_SIZE:
                 bound = None
             else:
                 bound = 2 if quick else None
-            jobs.append((scn, bound, 60 if quick else 900, 1))
-    return jobs
+            jobs.append((scn, bound, 60 if quick else 900, 1, ai))
+    # every program first with its first assignment, then the second, ...
+    jobs.sort(key=lambda j: j[4])
+    return [j[:4] for j in jobs]
 
 
 def main(tier):
     rep = common.Report(PROP, tier)
-    jobs = common.rotate(scenarios(tier))
+    jobs = scenarios(tier)
     deadline = time.time() + (150 if tier == 'quick' else 2400)
     res = common.parallel_map(common.explore_job, jobs, deadline=deadline)
     rep.add_explore_results(jobs, res)
